@@ -629,6 +629,98 @@ fn spec_kind(spec: &CharacterDataSpec) -> String {
     }
 }
 
+/// One model, two files of different versions, each owning one package: every kind of ELEMENTS member that exists in the newer
+/// version only is moved (move_element_here, move_element_here_at) from the newer file's package into the older file's.
+/// Whatever the call answers, each file must afterwards still load strictly on its own.
+fn moves_between_files_of_different_versions(ctx: &Ctx, tier: Tier) -> (u64, u64) {
+    let mut pairs: Vec<(AutosarVersion, AutosarVersion)> = vec![];
+    for i in 1..VERSIONS.len() {
+        if tier == Tier::Thorough || i % 4 == 0 || i == VERSIONS.len() - 1 {
+            pairs.push((VERSIONS[i - 1], VERSIONS[i]));
+        }
+    }
+    pairs.push((VERSIONS[0], VERSIONS[VERSIONS.len() - 1]));
+    let moves = AtomicU64::new(0);
+    pairs.par_iter().for_each(|(v_old, v_new)| {
+        let r_new = reach(*v_new);
+        let Some(path) = r_new.order.iter().find_map(|t| r_new.path.get(t).filter(|p| p.last().is_some_and(|s| s.name == ElementName::Elements) && p.len() == 4).cloned()) else {
+            ctx.machinery_error(format!("two-version model: no ELEMENTS type found in {v_new:?}"));
+            return;
+        };
+        let elements_type = path.last().unwrap().etype;
+        // (member kind, child): kinds that only the newer version has, and kinds of both versions with a direct child that only the newer one has
+        let mut cands: Vec<(ElementName, Option<(ElementName, bool)>)> = vec![];
+        for k in sub_specs(elements_type, *v_new) {
+            match elements_type.find_sub_element(k.name, *v_old as u32) {
+                None => cands.push((k.name, None)),
+                Some((kt_old, _)) => {
+                    for c in sub_specs(k.etype, *v_new) {
+                        if kt_old.find_sub_element(c.name, *v_old as u32).is_none() && c.name != ElementName::ShortName {
+                            cands.push((k.name, Some((c.name, c.etype.is_named_in_version(*v_new)))));
+                        }
+                    }
+                }
+            }
+        }
+        for (kind, child) in cands {
+            for route in ["move_element_here", "move_element_here_at"] {
+                let w = |extra: Value| json!({"kind": "two-version-move", "older_file": format!("{v_old:?}"), "newer_file": format!("{v_new:?}"), "element": kind.to_str(), "child_only_in_newer_version": child.map(|c| c.0.to_str()), "route": route, "detail": extra});
+                let built = guarded(|| -> Result<(AutosarModel, ArxmlFile, ArxmlFile, Element, Element), AutosarDataError> {
+                    let m = AutosarModel::new();
+                    let f_new = m.create_file("new.arxml", *v_new)?;
+                    let f_old = m.create_file("old.arxml", *v_old)?;
+                    let pkgs = m.root_element().create_sub_element(ElementName::ArPackages)?;
+                    let a = pkgs.create_named_sub_element(ElementName::ArPackage, "a")?;
+                    let b = pkgs.create_named_sub_element(ElementName::ArPackage, "b")?;
+                    a.remove_from_file(&f_old)?;
+                    b.remove_from_file(&f_new)?;
+                    let e = a.create_sub_element(ElementName::Elements)?.create_named_sub_element(kind, "k")?;
+                    if let Some((cname, named)) = child {
+                        if named {
+                            e.create_named_sub_element(cname, "c")?;
+                        } else {
+                            e.create_sub_element(cname)?;
+                        }
+                    }
+                    let dest = b.create_sub_element(ElementName::Elements)?;
+                    Ok((m, f_new, f_old, e, dest))
+                });
+                let Ok(Ok((_m, f_new, f_old, e, dest))) = built else {
+                    ctx.count("two_version_model_kinds_not_built", 1);
+                    continue;
+                };
+                moves.fetch_add(1, Ordering::Relaxed);
+                // what a loader has to say about each file on its own (an element just created may lack a required attribute)
+                let problems = |f: &ArxmlFile| -> std::collections::BTreeSet<String> {
+                    let Ok(text) = f.serialize() else { return Default::default() }; // a file left without content is not a document
+                    let m2 = AutosarModel::new();
+                    match m2.load_buffer(text.as_bytes(), "alone.arxml", false) {
+                        Ok((_, warnings)) => warnings.iter().map(super::c01::err_class).collect(),
+                        Err(err) => std::iter::once(format!("does-not-load:{}", super::c01::err_class(&err))).collect(),
+                    }
+                };
+                let before = [problems(&f_old), problems(&f_new)];
+                let r = guarded(|| if route == "move_element_here" { dest.move_element_here(&e) } else { dest.move_element_here_at(&e, 0) });
+                let outcome = match &r {
+                    Err(msg) => {
+                        ctx.violation(format!("two-version-move|{route}|panic|{}", last_panic_loc()), w(json!(msg)));
+                        continue;
+                    }
+                    Ok(Ok(_)) => "Ok".to_string(),
+                    Ok(Err(e)) => super::c01::err_class(e),
+                };
+                ctx.outcome(format!("two-version-move:{outcome}"));
+                for (i, (f, label)) in [(&f_old, "older"), (&f_new, "newer")].into_iter().enumerate() {
+                    for p in problems(f).difference(&before[i]) {
+                        ctx.violation(format!("two-version-move|{route}|{outcome}|{label}-file-invalid-after-the-call|{p}"), w(json!({"problems_before": before[i], "new_problem": p})));
+                    }
+                }
+            }
+        }
+    });
+    (pairs.len() as u64, moves.load(Ordering::Relaxed))
+}
+
 pub fn run(tier: Tier) -> i32 {
     let ctx = Ctx::new("C07", tier);
     let cnt = Cnt { models: AtomicU64::new(0), states: AtomicU64::new(0), attempts: AtomicU64::new(0), reloads: AtomicU64::new(0), values: AtomicU64::new(0) };
@@ -674,6 +766,9 @@ pub fn run(tier: Tier) -> i32 {
     let (cv_pairs, cv_copies) = super::c13::cross_version_copy_with(&ctx, tier, true);
     ctx.count("cross_version_copy_pairs_checked_for_validity", cv_pairs);
     ctx.count("cross_version_copy_packages", cv_copies);
+    let (mv_pairs, mv_moves) = moves_between_files_of_different_versions(&ctx, tier);
+    ctx.count("two_version_model_pairs", mv_pairs);
+    ctx.count("two_version_model_moves", mv_moves);
     ctx.finish("model_checking", cov)
 }
 
